@@ -110,6 +110,12 @@ func copyTree(src, dst string) error {
 		if e.Name() == "LOCK" || e.Name() == "LOG" || strings.HasPrefix(e.Name(), "LOG.old") {
 			continue
 		}
+		if strings.HasSuffix(e.Name(), ".sst") {
+			// table files are never modified in place (an updated primary writes new ones)
+			if os.Link(filepath.Join(src, e.Name()), filepath.Join(dst, e.Name())) == nil {
+				continue
+			}
+		}
 		if err := copyFile(filepath.Join(src, e.Name()), filepath.Join(dst, e.Name())); err != nil {
 			return err
 		}
@@ -235,9 +241,13 @@ func (w *World) Create(p int, f File) error {
 			return err
 		}
 		if w.Backend == "cdb" {
+			// a compiled cdb file is immutable: a hard link is as good as a copy, and
+			// renaming over it only replaces this world's directory entry
 			tmp := w.tmp(".cdb")
-			if err := copyFile(t, tmp); err != nil {
-				return err
+			if err := os.Link(t, tmp); err != nil {
+				if err := copyFile(t, tmp); err != nil {
+					return err
+				}
 			}
 			return os.Rename(tmp, dst)
 		}
